@@ -337,6 +337,8 @@ type solverStats struct {
 
 var gStats = &solverStats{timeBy: map[string]float64{}, byVerd: map[string]int{}}
 
+var dumpSeq int64
+
 var solverSem = make(chan struct{}, 24)
 
 func runOneShot(ctx context.Context, be *Backend, script string, timeoutS int, fp, str bool) (string, string, float64) {
@@ -385,6 +387,10 @@ func SolvePortfolio(asserts []*Term, vars []*Term, names []string, timeoutS int,
 	}
 	sc.Raw("(check-sat)")
 	base := sc.String()
+	if d := os.Getenv("GOSYM_DUMP"); d != "" {
+		n := atomic.AddInt64(&dumpSeq, 1)
+		os.WriteFile(fmt.Sprintf("%s/q%03d.smt2", d, n), []byte(base), 0o644)
+	}
 	withModel := base
 	if len(vars) > 0 {
 		var sb strings.Builder
